@@ -109,7 +109,7 @@ namespace plan
       { // the capacity is an expression: `c - x` with 0 <= x <= c - 1 (its value may still move while the search goes on)
         std::vector<std::string> xs;
         for (size_t i = 0; i < m.reals.size(); ++i)
-          if (real_unit[i] <= m.unit)
+          if (real_unit[i] <= m.unit && m.reals[i][0] != 't')
             xs.push_back(m.reals[i]);
         if (!xs.empty())
         {
@@ -556,6 +556,109 @@ namespace plan
       s.text = "{" + t1 + " } [1.0] or {" + t2 + " } [100.0]";
       m.stmts.push_back(s);
       ++order;
+    }
+    else if (n == "tp")
+    { // a time-point variable: `tp t0; t0 >= 0.0;` - the reader sends relations among them to the real difference-logic theory.
+      // They are kept apart from the real variables (never mixed in one expression, unit coefficients only); for the evaluator and
+      // for z3 they are numeric leaves like any other (the reported value of a time point is its least admissible one)
+      if (tps.size() >= 5)
+        return;
+      const std::string v = "t" + std::to_string(tps.size());
+      m.reals.push_back(v);
+      real_unit.push_back(1 << 20); // never part of a rule's scope
+      tps.push_back(v);
+      planted[v] = mpq_class(2 * static_cast<long>(tps.size()) - 2);
+      decl("tp " + v + ";");
+      auto b = std::make_shared<B>();
+      b->k = B::REL;
+      b->rel = GEQ;
+      b->l.t.push_back({mpq_class(1), Path{v}});
+      b->r.k = 0;
+      assert_stmt(b);
+      m.stmts.back().structural = true;
+    }
+    else if (n == "tprel" || n == "tpdisj")
+    {
+      if (tps.size() < 2)
+        return;
+      auto mk = [&](long rel, long i, long j, long k, long form, bool plant, long slack)
+      {
+        auto b = std::make_shared<B>();
+        b->k = B::REL;
+        b->rel = static_cast<int>(modn(rel, 5));
+        const std::string &ti = tps[modn(i, tps.size())];
+        std::string tj = tps[modn(j, tps.size() - 1)];
+        if (tj == ti)
+          tj = tps.back();
+        b->l.t.push_back({mpq_class(1), Path{ti}});
+        const mpq_class kk = mpq_class(modn(k, 9)) / (modn(k, 4) == 3 ? 2 : 1);
+        if (modn(form, 3) == 0)
+          b->r.t.push_back({mpq_class(1), Path{tj}}), b->r.k = kk - 3; // ti REL tj + k
+        else if (modn(form, 3) == 1)
+          b->l.t.push_back({mpq_class(-1), Path{tj}}), b->r.k = kk - 3; // ti - tj REL k
+        else
+          b->r.k = kk; // ti REL k
+        if (plant && planting(slack))
+          plant_rel(b, true, slack);
+        return b;
+      };
+      if (n == "tprel")
+        assert_stmt(mk(op.arg(0), op.arg(1), op.arg(2), op.arg(3), op.arg(4), true, op.arg(5)));
+      else
+      { // `{ ti + a <= tj; } or { tj + b <= ti; }` (two activities that must not overlap), or branches of one to three difference
+        // constraints each (a pair tightened through a third point and directly inside ONE decision level)
+        auto dj = std::make_shared<BodyItem>();
+        dj->k = BodyItem::DISJ;
+        std::string text;
+        for (int br = 0; br < 2; ++br)
+        {
+          std::vector<BP> rels;
+          if (op.arg(6) & 1)
+          {
+            const long nrel = 1 + modn(op.arg(9 + br), 3);
+            for (long q = 0; q < nrel; ++q)
+            {
+              const size_t base = 11 + static_cast<size_t>(br) * 9 + static_cast<size_t>(q) * 3;
+              BP b = mk((op.arg(base) & 3) == 0 ? GEQ : LEQ, op.arg(base + 1), op.arg(base + 2), op.arg(base) >> 2, 1, false, 0);
+              b->r.k = mpq_class(modn(op.arg(base) >> 2, 9)); // small non-negative bounds: paths and direct constraints compete
+              rels.push_back(b);
+            }
+          }
+          else
+          {
+            auto b = std::make_shared<B>();
+            b->k = B::REL;
+            b->rel = (op.arg(7) >> br) & 1 ? LT : LEQ;
+            const std::string &ti = tps[modn(op.arg(1), tps.size())];
+            std::string tj = tps[modn(op.arg(2), tps.size() - 1)];
+            if (tj == ti)
+              tj = tps.back();
+            b->l.t.push_back({mpq_class(1), Path{br ? tj : ti}});
+            b->l.k = mpq_class(1 + modn(op.arg(3 + br), 4));
+            b->r.t.push_back({mpq_class(1), Path{br ? ti : tj}});
+            rels.push_back(b);
+          }
+          std::vector<std::shared_ptr<BodyItem>> items;
+          text += br ? " or {" : "{";
+          for (auto &b : rels)
+          {
+            mention(b);
+            auto it = std::make_shared<BodyItem>();
+            it->k = BodyItem::ASSERT;
+            it->b = b;
+            items.push_back(it);
+            text += " " + btext(b) + ";";
+          }
+          dj->branches.push_back(items);
+          text += " }";
+        }
+        Stmt st;
+        st.k = Stmt::DISJ;
+        st.item = dj;
+        st.text = text;
+        m.stmts.push_back(st);
+        ++order;
+      }
     }
     else if (n == "origin")
     { // origin >= k: the origin is a variable like any other, atoms must not start before it
